@@ -80,6 +80,8 @@ def run(ctx):
                 prior = "box" if opt.get("bounds") else ctx.rng.choice(["normal", "box"])
                 nan_above = 3.0 if ctx.rng.random() < 0.3 else None
                 tgt = sd.Target(dims, s=ctx.rng.choice([0.5, 1.0, 2.0]), c=0.3, prior=prior, nan_above=nan_above)
+                if opt.get("periodic"):
+                    tgt.shift0 = 6.0            # periodic interval [1, 11): the wrap must act on the parameter, not on its standardised value
                 flow = sd.FakeFlow(dims, seed=ctx.rng.randrange(1000))
                 akw = {}
                 if opt.get("bounds"):
@@ -104,6 +106,21 @@ def run(ctx):
                     z0 = np.asarray(nsutil.to_list(s.fit_preconditioning_transform(x0)), float).reshape(-1, dims)
                 except Exception as e:
                     ctx.violation(f"fit:{kind}:{pre}:{type(e).__name__}", f"fit_preconditioning_transform failed: {e!r}", {"kind": kind, "pre": pre, "pkw": pkw})
+                    continue
+                # "x the pre-image of z": the inverse the kernels use really inverts the forward map (z0 = forward(x0) on interior
+                # points) - checked against x0 itself, not against anything the transform says about itself
+                try:
+                    z0in = z0 if T.xp.__name__.endswith("numpy") or kind in ("emcee_smc", "emcee") else T.xp.asarray(z0, dtype=T.dtype)
+                    xr = np.asarray(nsutil.to_list(T.inverse(z0in)[0]), float).reshape(-1, dims)
+                    interior = np.all((x0 > blo + 0.05 * (bhi - blo)) & (x0 < bhi - 0.05 * (bhi - blo)), axis=1)
+                    tolx = 1e-3 if pre == "flow" else 1e-6
+                    if np.any(np.abs(xr - x0)[interior] > tolx * (1 + np.abs(x0)[interior])):
+                        i_bad = int(np.argmax(np.max(np.abs(xr - x0), axis=1) * interior))
+                        ctx.violation(f"not-the-pre-image:{pre}:{json.dumps(pkw, sort_keys=True)}",
+                                      f"inverse(forward(x)) = {xr[i_bad].tolist()} for x = {x0[i_bad].tolist()}: the point the densities are evaluated at is not the pre-image of z",
+                                      {"kind": kind, "preconditioning": pre, "kwargs": pkw, "options": opt, "ns": nsname, "x": x0[i_bad].tolist()})
+                except Exception as e:
+                    ctx.violation(f"inverse-raises:{kind}:{pre}:{type(e).__name__}", f"inverse of the fitted preconditioning transform raised {e!r}", {"kind": kind, "pre": pre, "pkw": pkw})
                     continue
                 n = 12
                 z = z0[:n] + rngn.normal(0, 0.3, size=(n, dims))
